@@ -235,7 +235,10 @@ func main() {
 	k := 0
 	for _, n := range names {
 		for _, mode := range []string{"safe", "unsafe"} {
-			per := time.Until(deadline) / time.Duration(2*len(names)-k)
+			per := 2 * time.Until(deadline) / time.Duration(2*len(names)-k) // twice the even share: most scenarios finish well below it, the deadline bounds the total
+			if per > time.Until(deadline) {
+				per = time.Until(deadline)
+			}
 			k++
 			if per < 2*time.Second {
 				per = 2 * time.Second
